@@ -7,9 +7,11 @@ import (
 	"fmt"
 	"mime/multipart"
 	"net/url"
+	"os"
 	"runtime"
 	"strconv"
 	"strings"
+	"time"
 
 	"github.com/fxamacker/cbor/v2"
 
@@ -40,8 +42,52 @@ type S3 struct {
 	M    map[string]string
 }
 
+// S4 (audit round 5): field declarations the key normalisation / splitting code has branches for and S3 does not
+// have - an embedded struct, unexported fields, pointers to structs and to scalars, arrays, interfaces, nested
+// slices, time values, multipart file headers, slices of (pointers to) structs, byte slices, a tagged field.
+type S4Inner struct {
+	X string
+	Y int
+}
+
+type S4Emb struct {
+	E      string
+	hidden int
+}
+
+// S4Tail is embedded LAST: the splitting code asks it only when no field before it answered for the key.
+type S4Tail struct {
+	T  string
+	Ts []string
+}
+
+type S4 struct {
+	S4Emb
+	hidden string
+	Ptr    *S4Inner
+	PInts  []*int
+	Arr    [2]int
+	Any    any
+	Nest   [][]string
+	When   time.Time
+	Dur    time.Duration
+	File   *multipart.FileHeader
+	Files  []*multipart.FileHeader
+	Inners []S4Inner
+	PInn   []*S4Inner
+	U8s    []byte
+	Tagged []string `query:"tg,required" form:"tg" header:"X-Tg" cookie:"tg"`
+	Str    string
+	I      int
+	Is     []int
+	B      bool
+	F64    float64
+	S4Tail
+}
+
 type target struct {
 	Name string
+	Rich bool // explored over richKeys instead of hostileKeys
 	New  func() any
 	// scalar / slice fields whose textual values have an unambiguous "cannot be this type" verdict
 	IntKeys, BoolKeys, FloatKeys, IntSliceKeys []string
@@ -53,7 +99,28 @@ var targets = []target{
 	{Name: "S3", New: func() any { return new(S3) }, IntKeys: []string{"I"}, BoolKeys: []string{"B"}, FloatKeys: []string{"F64"}, IntSliceKeys: []string{"Is"}},
 	{Name: "map[string]string", New: func() any { m := map[string]string{}; return &m }},
 	{Name: "map[string][]string", New: func() any { m := map[string][]string{}; return &m }},
+	// audit round 5
+	{Name: "S4", Rich: true, New: func() any { return new(S4) }, IntKeys: []string{"I"}, BoolKeys: []string{"B"}, FloatKeys: []string{"F64"}, IntSliceKeys: []string{"Is"}},
+	{Name: "T1", Rich: true, New: func() any { return new(T1) }},
+	{Name: "map[string]any", Rich: true, New: func() any { m := map[string]any{}; return &m }},
+	{Name: "map[string]int", Rich: true, New: func() any { m := map[string]int{}; return &m }},
 }
+
+// richKeys: keys that resolve against the declarations of S4 / the aliases of T1, plus the generic hostile ones.
+var richKeys = []sym{
+	{"embedded", "E"}, {"embedded-last-slice", "Ts"}, {"embedded-qualified", "S4Emb.E"}, {"unexported", "hidden"}, {"ptr-struct", "Ptr.X"}, {"ptr-struct-bracket", "Ptr[Y]"},
+	{"ptr-elems", "PInts"}, {"ptr-elems-index", "PInts.1"}, {"array", "Arr"}, {"array-over", "Arr.5"}, {"interface", "Any"}, {"nested", "Nest"}, {"nested-index", "Nest.0.0"},
+	{"time", "When"}, {"duration", "Dur"}, {"file-field", "File"}, {"files-field", "Files"}, {"file-attr", "File.Filename"}, {"structs", "Inners.0.X"}, {"structs-neg", "Inners.-1.X"},
+	{"ptr-structs", "PInn[2][Y]"}, {"bytes", "U8s"}, {"tag-alias", "tg"}, {"tag-field-name", "Tagged"}, {"t1-alias", "alpha"}, {"t1-list", "list"}, {"t1-crossed", "beta"},
+	{"known-str", "Str"}, {"known-int", "I"}, {"known-ints", "Is"}, {"known-bool", "B"}, {"known-float", "F64"},
+	{"open", "a["}, {"lone-close", "]"}, {"empty-key", ""}, {"dot", "."}, {"huge-index", "Inners.1999999.X"}, {"empty-index", "Ts[]"},
+}
+
+// development switch (mutant trials): C11_NO_RICH=1 leaves the rich targets and the file parts out.
+var noRich = os.Getenv("C11_NO_RICH") != ""
+
+// asFile: in the multipart carrier the component is sent as a FILE part with that field name (content "x").
+var asFile = sym{"as-file", "x"}
 
 // ---------------------------------------------------------------------------
 // hostile key/value alphabet (key-value carriers)
@@ -107,6 +174,12 @@ func buildKV(src source, pairs []kv) []byte {
 		mw := multipart.NewWriter(&body)
 		_ = mw.SetBoundary(mpBoundary)
 		for _, p := range pairs {
+			if p.V.Tag == asFile.Tag {
+				if w, err := mw.CreateFormFile(p.K.V, "f.bin"); err == nil {
+					_, _ = w.Write([]byte(p.V.V))
+				}
+				continue
+			}
 			_ = mw.WriteField(p.K.V, p.V.V)
 		}
 		_ = mw.Close()
@@ -140,6 +213,11 @@ func mustErrKV(t target, pairs []kv) (bool, string) {
 	all := func(key string, bad func(string) bool) bool {
 		n := 0
 		for _, p := range pairs {
+			if p.K.V == key && p.V.Tag == asFile.Tag {
+				// a FILE part with the field's name: the schema decoder then replaces the field's textual values by one
+				// empty value (gofiber/schema Decode: src[path] = []string{""}); like an empty value, no verdict
+				return false
+			}
 			if p.K.V == key {
 				if p.V.V == "" || !bad(p.V.V) {
 					return false
@@ -515,6 +593,9 @@ func (t *tot) report(g hostileGroup, st *station, c hostileCase, kind, detail, e
 		keyOnly[i] = tg
 		if g.KV {
 			keyOnly[i] = tg[:strings.LastIndex(tg, "=")] // key tag without the value tag
+			if strings.HasSuffix(tg, "="+asFile.Tag) {
+				keyOnly[i] += "(file-part)"
+			}
 		}
 	}
 	var sig string
@@ -557,15 +638,30 @@ func hostileGroups(quick bool) []hostileGroup {
 	if quick {
 		vals = hostileVals[:3]
 	}
-	var pairs []kv
-	for _, k := range hostileKeys {
-		for _, v := range vals {
-			pairs = append(pairs, kv{k, v})
+	pairsOf := func(keys []sym, src source) []kv {
+		var pairs []kv
+		vs := vals
+		if src == srcMultipart && !noRich {
+			vs = append(append([]sym(nil), vals...), asFile)
 		}
+		for _, k := range keys {
+			for _, v := range vs {
+				pairs = append(pairs, kv{k, v})
+			}
+		}
+		return pairs
 	}
 	for _, src := range kvSources {
 		for _, tg := range targets {
+			if tg.Rich && noRich {
+				continue
+			}
 			unit++
+			keys := hostileKeys
+			if tg.Rich {
+				keys = richKeys
+			}
+			pairs := pairsOf(keys, src)
 			for _, split := range []bool{false, true} {
 				src, tg, split := src, tg, split
 				mk := func(ps []kv) hostileCase {
